@@ -140,6 +140,7 @@ func init() {
 			"C08.3 exactly one reply-or-error per query on every path (zero only behind passive, hook veto, invalid token), one socket write per reply/error; C08.4 default branch answers 204, missing arguments answer 203 in every method that uses arguments; " +
 			"C08.6 the Addr built from the received source keeps that very net.Addr (or a copy in which every field of the original is carried over) and Raw() returns it, so the write goes to the complete source address (IP, port and zone); " +
 			"C08.7 the buffer handed to PacketConn.ReadFrom has a constant length > 65527 (the largest UDP payload), so the 'datagram filled the buffer' discard can never hit a complete datagram and every query reaches the dispatcher; " +
+			"C08.8 every element store into a net.IP-typed slice in library code targets a slice whose origins are fresh (make / literal / append onto a fresh slice), never a parameter, a field or the result of reslicing one (To4() included) - the IP of the received address is shared by the cached Addr, the raw *net.UDPAddr and the reply's ip field; " +
 			"C08.5 nothing that can reach the socket write is reachable from the non-query branch of the packet processor.",
 		NotDecided: "byte-for-byte content of the encoded datagrams (bencode library), 'when send budget allows' (C20).",
 		Rules: []*Rule{
@@ -149,6 +150,8 @@ func init() {
 			{ID: "C08.4", Doc: "error codes: 204 unknown method, 203 missing arguments", Floor: 5, Run: c08r4},
 			{ID: "C08.5", Doc: "silence on non-queries", Floor: 3, Run: c08r5},
 			{ID: "C08.7", Doc: "no well-formed query is dropped for its size: the read buffer is longer than any UDP payload", Floor: 1, Run: c08r7},
+			{ID: "C08.8", Doc: "the source address is not altered between receipt and reply: no library function stores into the bytes of a net.IP it was given", Floor: 1, Run: c08r8},
+			{ID: "C08.9", Doc: "the transaction id and method answered are those of this datagram: fresh decode target per datagram (shared with C07.7)", Floor: 1, Run: c07r7},
 			{ID: "C08.6", Doc: "the address wrapper hands back the complete address it was built from", Floor: 2, Run: c08r6},
 		},
 	})
@@ -840,4 +843,31 @@ func constSliceLen(v ssa.Value) (int64, string) {
 		}
 	}
 	return -1, "unknown origin"
+}
+
+// c08r8: address bytes are immutable once received. crcIP masks a COPY; masking the caller's slice
+// in place would rewrite the source address the reply is about to be sent to.
+func c08r8(w *World, rr *RuleRun) {
+	n := 0
+	isIPLike := func(t types.Type) bool {
+		s := t.String()
+		return s == "net.IP" || strings.HasSuffix(s, "net.IP")
+	}
+	eachInstr(w.P.LibFuncs, func(fn *ssa.Function, ins ssa.Instruction) {
+		st, ok := ins.(*ssa.Store)
+		if !ok {
+			return
+		}
+		ia, ok := st.Addr.(*ssa.IndexAddr)
+		if !ok || !isIPLike(ia.X.Type()) {
+			return
+		}
+		n++
+		bad := w.staleSliceOrigins(ia.X, 0, map[ssa.Value]bool{})
+		// reslicing or To4() of a parameter is still the parameter's storage
+		rr.At(w, ins, "bytes of an IP are written only in a private copy", len(bad) == 0, strings.Join(bad, "; "))
+	})
+	if n == 0 {
+		rr.ObligeTrivial("(library)", "no library code writes IP bytes in place", "-", true, "")
+	}
 }
